@@ -54,7 +54,7 @@ func init() {
 	Register(&Prop{
 		ID: "C16", NoShrink: true,
 		Rule: "te: ServeConn pipelines where some handlers call TimeoutError (some after asking for a hijack, with or without HijackSetNoResponse) and keep mutating the ctx (GET/HEAD/POST, HTTP/1.0 keep-alive and 1.1) followed by ordinary requests; " +
-			"wrap: Serve + TimeoutHandler(20ms) with inner handlers parked on gates past the deadline that afterwards rewrite status, headers and body, released by the NEXT request's handler so that late writes race with the next response; " +
+			"wrap: Serve + TimeoutHandler(120ms) with inner handlers parked on gates past the deadline that afterwards rewrite status, headers and body, released by the NEXT request's handler so that late writes race with the next response; " +
 			"conc: Concurrency N with N+1 connections holding slow wrapped handlers; wrapc: Concurrency 1..2, one connection, handlers that outlive their timeout and keep running while later requests arrive (status sequence = the Lean semaphore model, peak running <= N); monitor: timed-out requests get exactly the timeout status/message (no body for HEAD), no late write on the wire, later requests answered normally, " +
 			"at most N wrapped handlers inside, excess get 429; non-trivial = at least one timed-out request followed by another request; distinct = distinct input",
 		Parallel: false,
@@ -178,7 +178,7 @@ func init() {
 					ctx.SetBodyString("LATE")
 					close(g.done)
 				}
-				s := &fasthttp.Server{Handler: fasthttp.TimeoutHandler(inner, 20*time.Millisecond, "timed out!"), Logger: nopLogger{}, NoDefaultDate: true, NoDefaultServerHeader: true}
+				s := &fasthttp.Server{Handler: fasthttp.TimeoutHandler(inner, 120*time.Millisecond, "timed out!"), Logger: nopLogger{}, NoDefaultDate: true, NoDefaultServerHeader: true}
 				var out []byte
 				var methods []string
 				roundTrip := func(c net.Conn, br *bufio.Reader, i int, ch byte) (c16Resp, error) {
@@ -296,7 +296,7 @@ func init() {
 					}
 					ctx.SetBodyString("fast")
 				}
-				s := &fasthttp.Server{Handler: fasthttp.TimeoutHandler(inner, 40*time.Millisecond, "busy or timed out"), Concurrency: n, Logger: nopLogger{}, NoDefaultDate: true, NoDefaultServerHeader: true}
+				s := &fasthttp.Server{Handler: fasthttp.TimeoutHandler(inner, 150*time.Millisecond, "busy or timed out"), Concurrency: n, Logger: nopLogger{}, NoDefaultDate: true, NoDefaultServerHeader: true}
 				ln := fasthttputil.NewInmemoryListener()
 				done := make(chan struct{})
 				go func() { s.Serve(ln); close(done) }()
@@ -329,7 +329,7 @@ func init() {
 				impl := strings.Join(got, " ")
 				return &Case{Lines: []string{Line("tosem", a[0], a[1])}, Impl: impl, Nontrivial: strings.Contains(script, "s") && len(script) > 1, Tags: []string{"wrapc"},
 					Judge: func(r []string) Verdict {
-						desc := fmt.Sprintf("Concurrency=%d, TimeoutHandler(40ms), one connection, script %q (s = handler still running after its timeout): statuses [%s], peak wrapped handlers running %d, handler invocations %d, err=%v", n, script, impl, peak, ran, rerr)
+						desc := fmt.Sprintf("Concurrency=%d, TimeoutHandler(150ms), one connection, script %q (s = handler still running after its timeout): statuses [%s], peak wrapped handlers running %d, handler invocations %d, err=%v", n, script, impl, peak, ran, rerr)
 						if int(peak) > n {
 							return Verdict{VSpec, "wrapped-handlers-exceed-concurrency", desc}
 						}
